@@ -63,6 +63,9 @@ def both(sg, build_ops, fused, composed, tol, rg=None):
         if out.requires_grad:
             with repo.quiet(), np.errstate(all="ignore"):
                 out.backward(sg.Tensor(gen_g(out).astype(out.data.dtype)))
+                # a second sweep from another upstream gradient over the same graph: the accumulated gradients must
+                # coincide as well (whatever either form saved for its backward pass is still intact)
+                out.backward(sg.Tensor((gen_g(out)[::-1].reshape(out.data.shape) if out.data.ndim else gen_g(out) * 3).astype(out.data.dtype)))
             grads = [None if t.grad is None else t.grad.data.astype(np.float64) for t in T]
         res.append(("ok", out.data.astype(np.float64), grads))
     (s1, o1, g1), (s2, o2, g2) = res
